@@ -156,7 +156,7 @@ def nonrigid(c, g):
         kw["stride"] = c["stride"]
     if "steps" in c:
         kw["steps"] = c["steps"]
-    return cls(g, params=T(c["params"]), **kw)
+    return cls(g, params=torch.tensor(c["params"], dtype=torch.float32), **kw)   # B-spline kernels are float32
 
 
 def case_nonrigid(c):
@@ -174,8 +174,10 @@ def case_nonrigid(c):
         if c.get("resize_to"):
             g2 = g.resize(tuple(c["resize_to"]))
             out["disp_resized"] = t.disp(g2).to(F64).tolist()
+            out["resized_grid"] = grid_out(g2)
             x = g2.coords(align_corners=g.align_corners()).to(F64).unsqueeze(0)
             out["fwd_grid"] = t(x, grid=True).tolist()
+            out["lattice"] = x[0].tolist()
             out["fwd_points_at_lattice"] = t(x).tolist()
         out["points_world"] = t.points(T(c["world_points"]), axes=Axes.WORLD).tolist()
     return out
@@ -411,11 +413,21 @@ def oracle(p):
                 scale = 1 + float(ref.abs().max())
                 dd = float((yw - ref).abs().max()) / scale
                 if dd > tol:
-                    fail(f"C06:{name}.points:world-axes:differs", f"{name}: points(axes=WORLD) differs from the world map by {dd:.3g} (relative)", cls=name, D=D)
+                    fail("C06:SpatialTransform.points:world-axes:differs:" + ("linear" if t.linear else "nonrigid"), f"{name}: points(axes=WORLD) differs from the world map by {dd:.3g} (relative)", cls=name, D=D)
                 g2 = rgrid(rng, D)
                 pst = S.PointSetTransformer(t, axes=Axes.WORLD, to_grid=g2, to_axes=Axes.GRID)
                 yi = pst(xw)
                 refi = g2.transform_points(ref.double(), Axes.WORLD, to_axes=Axes.GRID, decimals=None).float()
+                yi2 = t.points(xw, axes=Axes.WORLD, to_grid=g2, to_axes=Axes.GRID)
+                dd = float((yi2 - refi).abs().max()) / (1 + float(refi.abs().max()))
+                if dd > tol:
+                    fail("C06:SpatialTransform.points:to-other-grid:differs:" + ("linear" if t.linear else "nonrigid"), f"{name}: points(axes=WORLD, to_grid=other, to_axes=GRID) differs from the world map by {dd:.3g}", cls=name, D=D)
+                # input given w.r.t. another grid's index coordinates
+                xi3 = g2.transform_points(xw.double(), Axes.WORLD, to_axes=Axes.GRID, decimals=None).float()
+                yw3 = t.points(xi3, grid=g2, axes=Axes.GRID, to_grid=g, to_axes=Axes.WORLD)
+                dd = float((yw3 - ref).abs().max()) / scale
+                if dd > 5 * tol:
+                    fail("C06:SpatialTransform.points:from-other-grid:differs:" + ("linear" if t.linear else "nonrigid"), f"{name}: points(grid=other, axes=GRID, to_axes=WORLD) differs from the world map by {dd:.3g}", cls=name, D=D)
                 dd = float((yi - refi).abs().max()) / (1 + float(refi.abs().max()))
                 if dd > tol:
                     fail(f"C06:PointSetTransformer:{name}:differs", f"PointSetTransformer({name}, WORLD -> other grid GRID) differs from the world map by {dd:.3g}", cls=name, D=D)
@@ -431,6 +443,14 @@ def oracle(p):
                     else:
                         go = g.resize([max(2, int(v) * 2 - 1) for v in g.size()])
                     fo = t.flow(go)
+                    if not t.linear and kind == "same-domain-resized" and fo.tensor().shape[0] == groups:
+                        # whole lattice, including the half-sample band outside the hull of the sample centres
+                        xo_ = go.coords().unsqueeze(0)
+                        dd_ = float((xo_ + fo.tensor().movedim(1, -1) - t(xo_)).abs().max())
+                        if dd_ > 2e-3:
+                            fail("C06:SpatialTransform.disp:nonrigid:same-domain-resized-grid:boundary-band",
+                                 f"{name}: x + disp(grid)(x) differs from transform(x) by {dd_:.3g} cube units at lattice points of a same-domain grid of another "
+                                 f"size (field resampled with zero padding, points mapped with border replication)", cls=name, D=D)
                     if fo.tensor().shape[0] != groups:
                         fail("C06:SpatialTransform.disp:nonrigid:other-grid:groups-truncated",
                              f"{name}(groups={groups}).disp(grid) on a {kind} grid returns {fo.tensor().shape[0]} field(s) instead of {groups}", cls=name, D=D, kind=kind)
